@@ -571,4 +571,20 @@ theorem bridge_dp_is_in_data (d : C20.DPDims) (a b : Int) :
   simp only [dp_is_in_data, C20.DPDims.isInData, Id.run, pure_id]
   bridge_split
 
+
+/-! the non-const overloads `float& operator()(…)`, through which every write goes, have bodies of their own in the source -/
+
+theorem bridge_fan_key_nc (d : C20.Dims) (ra a rb b : Int) :
+    fan_key_nc d.N d.minB ra a rb b = d.storeKey ra a rb b := by
+  simp only [fan_key_nc, C20.Dims.storeKey, Id.run, pure_id, decide_eq_true_eq]
+
+theorem bridge_geo_key_nc (g : C20.GeoDims) (ra a rb b : Int) :
+    geo_key_nc g.N (fun a => (geo_ctor_b_range g.N a).1) ra a rb b = g.storeKey ra a rb b := by
+  simp only [geo_key_nc, geo_ctor_b_range, C20.GeoDims.storeKey, Id.run, pure_id]
+  by_cases h : b < a <;> simp [h]
+
+theorem bridge_dp_key_nc (d : C20.DPDims) (a b : Int) :
+    (let r := dp_key_nc d.N d.minB a b; ((0 : Int), r.1, (0 : Int), r.2)) = d.storeKey a b := by
+  simp only [dp_key_nc, C20.DPDims.storeKey, Id.run, pure_id, decide_eq_true_eq]
+
 end StirVerif.Gen
